@@ -270,6 +270,53 @@ func metaMain(args mon.Args) {
 				}
 			}
 		}
+		// many: 2..40 undecodable sets of mixed kinds spread over the message (a limit on errors or sets per
+		// datagram must not cost the neighbours their records)
+		for _, k := range []int{2, 7, 8, 9, 16, 40} {
+			sets := append([]wire.Set{}, baseSets...)
+			kinds := map[string]int{}
+			for j := 0; j < k; j++ {
+				u := wire.Set{Kind: wire.SetRaw, RawBody: g.Bytes(4 * g.Intn(4))}
+				switch g.Intn(3) {
+				case 0:
+					lo := 4
+					if proto == "nf9" {
+						lo = 2
+					}
+					u.SetID = uint16(g.Range(lo, 255))
+					kinds["reserved"]++
+				case 1:
+					id := uint16(g.Range(256, 65535))
+					for used[id] {
+						id++
+					}
+					u.SetID = id
+					kinds["unknown-template"]++
+				default:
+					u.SetID = tuID
+					u.RawBody = g.Bytes(g.Range(tu.MinRecLen(), tu.MinRecLen()+12))
+					if proto == "nf9" {
+						u.Pad = (4 - (4+len(u.RawBody))%4) % 4
+					}
+					kinds["missing-element"]++
+				}
+				at := g.Intn(len(sets) + 1)
+				if j == k-1 {
+					at = 0 // the last one goes to the front: everything decodable comes after all of them
+					if g.Bool() {
+						at = g.Intn(len(sets) + 1)
+					}
+				}
+				sets = append(append(append([]wire.Set{}, sets[:at]...), u), sets[at:]...)
+			}
+			pert, _ := wire.EncodeFlow(proto, fc.HdrRaw[last], sets)
+			if len(pert) > 65000 {
+				continue
+			}
+			run.Distinct(fmt.Sprintf("%s|many%d|%d", proto, k, len(baseSets)))
+			run.Add("insertions_of_many_undecodable_sets", 1)
+			mk("insert:many", fmt.Sprintf("%d undecodable sets %v spread over the %d sets of the message", k, kinds, len(baseSets)), pert)
+		}
 		// announced later: a data set of id Y arrives before the set that first announces Y in the same message.
 		// At that point it is a set of an unknown template; the later template set and the data sets of Y
 		// behind it must be decoded exactly as if the early set were absent.
@@ -356,7 +403,7 @@ func metaMain(args mon.Args) {
 			run.HarnessError("canary: comparator accepted an altered record")
 		}
 	}
-	run.SetRule("metamorphic over the real decoders (IPFIX and NetFlow v9, fresh identically pre-loaded caches): for a generated well-formed message M, (1) at EVERY position between sets a length-consistent undecodable set is inserted - reserved id (ipfix 4..255, v9 2..255), unknown template id, or a known template that uses an element missing from the information model - with 0..64 random body octets, and (1b) a data set of an id that the same message announces only later, placed at every position before that announcement: records must equal those of M exactly and in order and the message must not be rejected; (2) for EVERY cut 0..len(M) the records of M[:cut] must be a prefix of the records of M. distinct = (protocol, kind, position, body length class) / message shape")
+	run.SetRule("metamorphic over the real decoders (IPFIX and NetFlow v9, fresh identically pre-loaded caches): for a generated well-formed message M, (1) at EVERY position between sets a length-consistent undecodable set is inserted - reserved id (ipfix 4..255, v9 2..255), unknown template id, or a known template that uses an element missing from the information model - with 0..64 random body octets, (1a) 2, 7, 8, 9, 16 and 40 undecodable sets of mixed kinds spread over one message, and (1b) a data set of an id that the same message announces only later, placed at every position before that announcement: records must equal those of M exactly and in order and the message must not be rejected; (2) for EVERY cut 0..len(M) the records of M[:cut] must be a prefix of the records of M. distinct = (protocol, kind, position, body length class) / message shape")
 	run.Assume("IPFIX set ids 0 and 1 are 'not used' rather than reserved and are not inserted")
 	run.Finish()
 }
